@@ -659,7 +659,11 @@ Definition work_assert (st : pstate) (t : tinfo) : list form :=
         match al_get Nat.eqb (busy_of st r) (ti_id t) with
         | Some m => [TMul (TC (prod_of st r)) (TSub (BE r (ti_id t) m) (BS r (ti_id t) m))]
         | None => [] end) (reqs_of st (ti_id t)) in
-    match contribs with [] => [] | _ => [FGe (TAdd contribs) (TC (ti_work t))] end
+    match contribs with
+    | [] => []
+    | _ => let a := FGe (TAdd contribs) (TC (ti_work t)) in
+           [if ti_opt t then FImp (sched_f t) a else a]     (* the work is only due when the task is scheduled *)
+    end
   else [].
 
 Definition tagged (g : tag) (l : list form) : list (tag * form) := map (pair g) l.
